@@ -4,7 +4,8 @@ import json
 import lib
 import itp_common as ic
 
-HEADER = """From Coq Require Import List String ZArith NArith.
+HEADER = """From Coq Require Import String Ascii.
+From Coq Require Import List ZArith NArith.
 From GM Require Import Base.Res Corr.CheckC16 Corr.CheckC15.
 Import ListNotations.
 Open Scope string_scope.
@@ -152,6 +153,11 @@ def corpus(ctx):
     truth = ("M-1", [("C1", "RES", 1), ("C2", "RES", 1), ("H1", "RES", 2)], [(1, 2), (0, 1), (2, 2), (2, 0)])
     check_generated(ctx, text, truth, key="corpus", label="hand-written")
     S["corpus"] += 1
+    # D13 witnesses: a comment glued to the fields of the moleculetype line
+    for mol in ("MOL 1;c", "MOL 1;", "MOL 2 ;c"):
+        text = "[ moleculetype ]\n%s\n[ atoms ]\n1 X 1 R A 1\n" % mol
+        check_generated(ctx, text, ("MOL", [("A", "R", 1)], []), key="corpus", label="moleculetype line %r" % mol)
+        S["corpus"] += 1
 
 
 # ------------------------------------------------------------------ K
@@ -172,6 +178,7 @@ MALFORMED = [
     ("nrexcl_zero", "[ moleculetype ]\nM 0\n[ atoms ]\n1 X 1 R A 1\n"),
     ("nrexcl_missing", "[ moleculetype ]\nM\n[ atoms ]\n1 X 1 R A 1\n"),
     ("nrexcl_glued_comment", "[ moleculetype ]\nM 1;c\n[ atoms ]\n1 X 1 R A 1\n"),
+    ("name_glued_comment", "[ moleculetype ]\na;b 3\n[ atoms ]\n1 X 1 R A 1\n"),
     ("duplicate_numbers", "[ moleculetype ]\nM 1\n[ atoms ]\n1 X 1 R A 1\n1 X 1 R B 1\n2 X 1 R C 2\n[ bonds ]\n1 2\n"),
     ("section_named_header", "[ moleculetype ]\nM 1\n[ atoms ]\n1 X 1 R A 1\n[ header ]\n1 1\n[ bonds ]\n1 1\n"),
     ("substring_section", "[ type ]\nM 1\n[ moleculetype ]\nN 2\n[ atoms ]\n1 X 1 R A 1\n"),
